@@ -237,9 +237,24 @@ Section FreqPrims.
     fun args kw => match args, kw with [VSig (Arr a)], [] => Ok (VSig (Arr a)) | _, _ => Bad end.
 
   (* the amplitude array: np.zeros_like(imf), iamp[:, i, j] = <envelope or None>; None makes the column NaN *)
+  (* the bare name `float` is translated as a nullary opaque; `dtype=float` makes the buffer float whatever the dtype of imf -
+     the model's arrays are exact rationals, so both spellings denote the same zero array *)
+  Definition h_float : handler npv :=
+    fun args kw => match args, kw with [], [] => Ok (VOpaque "float" []) | _, _ => Bad end.
+  Definition is_dtype_float (kw : list (string * val npv)) : bool :=
+    match kw with
+    | [] => true
+    | [(k, VOpaque t [])] => (String.eqb k "dtype" && String.eqb t "float")%bool
+    | _ => false
+    end.
   Definition h_zeros_like : handler npv :=
+    fun args kw => match args with
+                   | [VSig (Arr3 a)] => if is_dtype_float kw then Ok (VSig (Amp3 (map (fun c => Some (map (fun _ => 0%Qc) c)) a))) else Bad
+                   | _ => Bad end.
+  (* `np.array(X, dtype=float)`: a fresh float copy *)
+  Definition h_array_float : handler npv :=
     fun args kw => match args, kw with
-                   | [VSig (Arr3 a)], [] => Ok (VSig (Amp3 (map (fun c => Some (map (fun _ => 0%Qc) c)) a)))
+                   | [VSig (Arr a)], [(k, VOpaque t [])] => if (String.eqb k "dtype" && String.eqb t "float")%bool then Ok (VSig (Arr a)) else Bad
                    | _, _ => Bad end.
   Definition opt_col (v : val npv) : option (option (list Qc)) :=
     match v with VSig (Col c) => Some (Some c) | VNone => Some None | _ => None end.
@@ -355,7 +370,8 @@ Section FreqPrims.
       ("np.pi / 2", h_half_pi);
       (* utils.amplitude_normalise *)
       ("X.ndim", h_ndim);
-      ("X.copy()", h_copy);
+      ("np.array", h_array_float);
+      ("float", h_float);
       ("X[:, :, None]", h_newaxis);
       ("X.shape", h_shape);
       ("X[:, iimf, jimf]", h_getcol);
